@@ -5,8 +5,9 @@ import Tahoe.Dir.Traverse
   `trav <root> <fuel> <node>;<node>;…`     node = `<id>:<d|f|u>:<verifier|->:<children>`
                                            children = `-` | `name>id,name>id,…` (names: opaque tokens, in
                                            the order of sorted(children.items()))
-  → `<events> <done|fuel>`, events = `A<id>@<path>` (add_node; path = names joined by `/`, `-` if empty)
-                                     `E<id>` (enter_directory), separated by `,`. -/
+  → `<events> <done|fuel> <stats>`, events = `A<id>@<path>` (add_node; path = names joined by `/`, `-` if empty)
+                                     `E<id>` (enter_directory), separated by `,`;
+    stats = `count-directories,count-files,count-literal-files,count-unknown` (the model's `deepStats`). -/
 open Tahoe.Drv Tahoe.Dir.Traverse
 
 def parseKind : String → Option Kind
@@ -43,7 +44,9 @@ def handle : List String → String
     match root.toNat?, fuel.toNat?, parseNodes nodes with
     | some r, some f, some l =>
       let res := traverse (graphOf l) r f
-      ",".intercalate (res.1.map showEvent) ++ " " ++ (if res.2 then "done" else "fuel")
+      let st := deepStats (graphOf l) res.1
+      ",".intercalate (res.1.map showEvent) ++ " " ++ (if res.2 then "done" else "fuel") ++ " " ++
+        s!"{st.verifiedDirs + st.literalDirs},{st.verifiedFiles + st.literalFiles},{st.literalFiles},{st.unknown}"
     | _, _, _ => "bad-op"
   | _ => "bad-op"
 
